@@ -97,6 +97,37 @@ Definition glue_C01 (k : string) (a o : list value) : option verdict :=
             end
         end
     | _ => None end
+  else if is k "sync.extreme" then
+    (* as sync.run, with the bound of the property at full strength: every correction within the peer cap,
+       also when the caps exceed 2^62 ns *)
+    (* args: mode dval refbits peerbits cutoff timeout interval nref npeer rounds
+       mode 0: the real clocks.SystemClock with configured drift dval ns/s; mode 1: a scripted clock whose Drift returns dval
+       observed: panicked, events in order ([0 c] = Do c, [1 d] = Sleep d, [2 a r] = Drift(a) = r, [3 _] = any other clock call) *)
+    match a with
+    | [VZ mode; VZ dval; VZ rb; VZ pb; VZ cutoff; VZ timeout; VZ interval; VZ nref; VZ npeer; VL rounds] =>
+        let nr := Z.to_nat nref in let np := Z.to_nat npeer in
+        match rnds_of_values timeout nr np rounds with
+        | None => None
+        | Some rs =>
+            let cfg := mkcfg (f_of_bits rb) (f_of_bits pb) cutoff timeout interval in
+            let D := if mode =? 0 then sysclk_drift dval interval else dval in
+            let '(pan, evs) := run cfg D nr np rs in
+            let expected := [vbool pan; VL (map value_of_event evs)] in
+            match o with
+            | [VZ opan; VL oevs] =>
+                match events_of_values oevs with
+                | Some es =>
+                    let drift_ok :=
+                      if mode =? 0 then forallb (fun e => match e with EDrift x r => C01_drift_ok dval x r | _ => true end) es
+                      else true in
+                    Some (functional expected o (C01_ok cfg nr np rs (negb (opan =? 0), es) && drift_ok &&
+                            forallb (fun e => match e with EDo c => within c (cap (c_peer cfg) D) | _ => true end) es))
+                | None => Some (functional expected o true)
+                end
+            | _ => Some (functional expected o true)
+            end
+        end
+    | _ => None end
   else if is k "sync.drift" then
     match a, o with
     | [VZ drift_ns; VZ d], [VZ r] => Some (functional [VZ (sysclk_drift drift_ns d)] o (C01_drift_ok drift_ns d r))
